@@ -140,16 +140,77 @@ def run(tier, seed):
     for i, (src, exp) in enumerate(progs):
         lines.append(A.case_line(f"s{i}", "6502", {"/m.asm": src}))
         lines.append(A.case_line(f"e{i}", "6502", {"/m.asm": exp}))
-    # @entropy: the same string within one expansion, different across expansions
+    # @entropy: the same string within one expansion, different across expansions.  Expansions form a
+    # tree (a macro invoked from a body, from an argument of another invocation, between the
+    # generator directives); every expansion defines one label from its @entropy and stores that
+    # label's address before and after whatever it expands inside, so the expected image follows
+    # from the tree alone.
     ent_progs = []
-    for k in range(40 if tier == "quick" else 400):
-        n = rng.randint(2, 9)
-        src = '@macro UNIQ, 0\n@label { "lbl" @entropy }:\n@dw @label { "lbl" @entropy }\n@db 7\n@endmacro\n'
-        for j in range(n):
-            src += "UNIQ\n"
-            if rng.random() < 0.5:
-                src += rng.choice(["@db @hex 5\n", "@each T, {1 2}\n@db T\n@endeach\n", "@db @bin 3\n"])
-        ent_progs.append((src, n))
+    ENT_HDR = ('@macro UNIQ, 0\n@label { "lbl" @entropy }:\n@dw @label { "lbl" @entropy }\n@db 7\n@endmacro\n'
+               '@macro WRAP, 1, BODY\n@label { "lbl" @entropy }:\n@dw @label { "lbl" @entropy }\nBODY\n@dw @label { "lbl" @entropy }\n@endmacro\n'
+               '@macro NEST, 0\n@label { "lbl" @entropy }:\n@dw @label { "lbl" @entropy }\nUNIQ\n@dw @label { "lbl" @entropy }\n@endmacro\n'
+               '@macro TWO, 2, PA, PB\n@label { "lbl" @entropy }:\nPA\n@dw @label { "lbl" @entropy }\nPB\n@dw @label { "lbl" @entropy }\n@endmacro\n')
+
+    def ent_tree(depth):
+        r = rng.random()
+        if depth == 0 or r < 0.35:
+            return rng.choice([("U",), ("U",), ("N",), ("raw", rng.randint(1, 200))])
+        if r < 0.75:
+            return ("W", [ent_tree(depth - 1) for _ in range(rng.randint(0, 3))])
+        return ("T", [ent_tree(depth - 1) for _ in range(rng.randint(0, 2))], [ent_tree(depth - 1) for _ in range(rng.randint(0, 2))])
+
+    def ent_src(t):
+        if t[0] == "U":
+            return "UNIQ"
+        if t[0] == "N":
+            return "NEST"
+        if t[0] == "raw":
+            return f"@db {t[1]}"
+        if t[0] == "W":
+            return "WRAP { " + " ".join(ent_src(c) for c in t[1]) + " }"
+        return "TWO { " + " ".join(ent_src(c) for c in t[1]) + " }, { " + " ".join(ent_src(c) for c in t[2]) + " }"
+
+    def ent_img(t, a):
+        """(bytes, number of expansions) of the tree placed at address a"""
+        le = lambda v: [v & 255, v >> 8 & 255]
+        if t[0] == "U":
+            return le(a) + [7], 1
+        if t[0] == "raw":
+            return [t[1]], 0
+        if t[0] == "N":
+            return le(a) + le(a + 2) + [7] + le(a), 2
+        if t[0] == "W":
+            out, n = le(a), 1
+            for c in t[1]:
+                b, k = ent_img(c, a + len(out))
+                out += b
+                n += k
+            return out + le(a), n
+        out, n = [], 1
+        for c in t[1]:
+            b, k = ent_img(c, a + len(out))
+            out += b
+            n += k
+        out += le(a)
+        for c in t[2]:
+            b, k = ent_img(c, a + len(out))
+            out += b
+            n += k
+        return out + le(a), n
+
+    for k in range(150 if tier == "quick" else 2500):
+        src, img, n = ENT_HDR, [], 0
+        for j in range(rng.randint(2, 7)):
+            t = ent_tree(rng.randint(0, 3))
+            b, c = ent_img(t, len(img))
+            src += ent_src(t) + "\n"
+            img += b
+            n += c
+            if rng.random() < 0.4:
+                extra, eb = rng.choice([("@db @hex 5\n", [0x35]), ("@each T, {1 2}\n@db T\n@endeach\n", [1, 2]), ("@db @bin 3\n", [0x31, 0x31]), ("@db @count 1\n", [0])])
+                src += extra
+                img += eb
+        ent_progs.append((src, n, bytes(img).hex()))
         lines.append(A.case_line(f"u{k}", "6502", {"/m.asm": src}))
     impl, model = A.run_both(lines)
     n_ok = 0
@@ -177,7 +238,7 @@ def run(tier, seed):
         if bad:
             chk.violation("expand:" + bad[:28], f"{bad}\n--- program ---\n{src}\n--- hand-expanded equivalent ---\n{exp}",
                           {"arch": "6502", "source": src, "expanded": exp, "impl": {k: x for k, x in im.items() if k != 'msg'}})
-    for k, (src, n) in enumerate(ent_progs):
+    for k, (src, n, want) in enumerate(ent_progs):
         im = A.parse_impl(impl.get(f"u{k}"))
         mo = A.parse_model(model.get(f"u{k}"))
         chk.evaluations += 1
@@ -192,12 +253,9 @@ def run(tier, seed):
         data = bytes.fromhex(im["bytes"])
         if len(lbls) != n:
             chk.violation("entropy:distinct", f"{n} expansions produced {len(lbls)} distinct @entropy labels:\n{src}", {"arch": "6502", "source": src, "symbols": syms})
-        # within one expansion both @entropy uses are the same string: the @dw that follows each label holds its own address
-        for nm, v in lbls.items():
-            a = int(v)
-            if a + 1 < len(data) and data[a] | data[a + 1] << 8 != a:
-                chk.violation("entropy:same", f"inside one expansion two @entropy uses differ (label {nm} at {a}, @dw holds {data[a] | data[a+1] << 8}):\n{src}",
-                              {"arch": "6502", "source": src, "symbols": syms})
+        if im["bytes"] != want:
+            chk.violation("entropy:image", f"image {im['bytes']} differs from {want}, which follows from `same string within an expansion, a fresh one per expansion`:\n{src}",
+                          {"arch": "6502", "source": src, "symbols": syms})
     chk.samples += [{"program": progs[k][0], "hand_expanded": progs[k][1]} for k in (2, len(progs) // 2)]
     chk.oblige("correspondence: implementation = Model (pump with the macro-like directives) on every program", not chk.disagreements,
                str(chk.disagreements[:2])[:800])
